@@ -175,6 +175,27 @@ fn run_op<T: ValueStore, U: CacheStore>(
             Some(n) => res(n.execute(dev, store, cx), unit),
             None => vec![1, NO_IFACE],
         },
+        // the other feature interfaces (the cached / uncached comparison needs no model of them)
+        "vb" => match nid.as_iboolean_kind(store) {
+            Some(n) => res(n.value(dev, store, cx), |x| vec![x as i128]),
+            None => vec![1, NO_IFACE],
+        },
+        "sb" => match nid.as_iboolean_kind(store) {
+            Some(n) => res(n.set_value(p[2] == "1", dev, store, cx), unit),
+            None => vec![1, NO_IFACE],
+        },
+        "ve" => match nid.as_ienumeration_kind(store) {
+            Some(n) => res(n.current_value(dev, store, cx), |x| vec![x as i128]),
+            None => vec![1, NO_IFACE],
+        },
+        "se" => match nid.as_ienumeration_kind(store) {
+            Some(n) => res(n.set_entry_by_value(p[2].parse().unwrap(), dev, store, cx), unit),
+            None => vec![1, NO_IFACE],
+        },
+        "sn" => match nid.as_ienumeration_kind(store) {
+            Some(n) => res(n.set_entry_by_symbolic(p[2], dev, store, cx), unit),
+            None => vec![1, NO_IFACE],
+        },
         "dn" => match nid.as_icommand_kind(store) {
             Some(n) => res(n.is_done(dev, store, cx), |x| vec![x as i128]),
             None => vec![1, NO_IFACE],
